@@ -276,3 +276,6 @@ func SortedKeys[V any](m map[string]V) []string {
 
 // PickI64 returns one of the listed values.
 func (c *Ctx) PickI64(label string, vals ...int64) int64 { return vals[c.Pick(label, len(vals))] }
+
+// PickU64 returns one of the listed values.
+func (c *Ctx) PickU64(label string, vals ...uint64) uint64 { return vals[c.Pick(label, len(vals))] }
